@@ -78,8 +78,8 @@ func vMakeWN(w, n int) string {
 	if w > 1<<16 {
 		w = 1 << 16
 	}
-	if n > 3*w+4096 {
-		n = 3*w + 4096
+	if n > 3*w+(1<<21) {
+		n = 3*w + (1 << 21)
 	}
 	var sb strings.Builder
 	for cw := w; cw > 0; {
